@@ -91,6 +91,6 @@ Definition run_goal (ls : list Z) (fa fb : list Z) : list Z :=
   let l := map layer_of_z ls in [ord_z (goal_cmp l fa fb); ord_z (goal_cmp l fb fa); ord_z (goal_cmp l fa fa)].
 Definition run_icost (a b : list Z) : list Z := [ord_z (icost_cmp a b)].
 Definition run_icost_arith (a b : list Z) : list (list Z) :=
-  [icost_add a b; icost_sub a b; icost_sub (icost_add a b) b].
+  [icost_add a b; icost_sub a b; icost_sub (icost_add a b) b; icost_add (icost_sub a b) b].
 Definition run_dominance (os : list Z) : Z :=
   ord_z (dominance (map (fun z => if z <? 0 then Lt else if z =? 0 then Eq else Gt) os)).
